@@ -420,22 +420,28 @@ class MacroProgram(ElementProgram):
                 )
 
             def CASE(node):
+                # The case expression is cached: it is compared twice
+                # (switch value and default marker), evaluated once.
                 return nodes.Define(
                     [nodes.Alias(["default"], self.default_marker)],
                     nodes.Condition(
-                        nodes.And([
-                            nodes.BinOp(
-                                parent_switch, nodes.IsNot,
-                                self._cancel_marker),
-                            nodes.Or([
-                                nodes.BinOp(
-                                    value, nodes.Equals, parent_switch),
-                                nodes.BinOp(
-                                    value, nodes.Equals, self.default_marker)
-                            ])
-                        ]),
-                        nodes.Cancel(
-                            [parent_switch], node, self._cancel_marker),
+                        nodes.BinOp(
+                            parent_switch, nodes.IsNot, self._cancel_marker),
+                        nodes.Cache(
+                            [value],
+                            nodes.Condition(
+                                nodes.Or([
+                                    nodes.BinOp(
+                                        value, nodes.Equals, parent_switch),
+                                    nodes.BinOp(
+                                        value, nodes.Equals,
+                                        self.default_marker)
+                                ]),
+                                nodes.Cancel(
+                                    [parent_switch], node,
+                                    self._cancel_marker),
+                            )
+                        )
                     ))
 
         # tal:repeat
